@@ -103,3 +103,22 @@
   (and (>= (plen p) 1) (<= (plen p) 4096)
        ((_ is I.bpf.Instruction.box.bpf.RetConstant) (insnAt p (- (plen p) 1)))
        (strictClosed p)))
+; C07 (d): distinct known names of the architecture have distinct filter numbers (number | mask as a 32-bit word).
+; For the five tables of the repository this is a ground obligation of C12/C07 (exact evaluation of the literals).
+(define-fun infoInj ((ai arch.Info)) Bool
+  (forall ((a String) (b String)) (! (=> (and (knownName ai a) (knownName ai b) (= (numOf ai a) (numOf ai b))) (= a b))
+      :pattern ((select (Map<String~Int>.val (arch.Info.SyscallNames ai)) a) (select (Map<String~Int>.val (arch.Info.SyscallNames ai)) b)))))
+; C07 (d), bookkeeping of toSyscallsWithConditions: every entry (every entry without conditions) stems from one of the
+; first k names of the group. Named predicates, opaque except in the obligations that need them: together with the
+; converse invariant (every name has an entry) the two quantifier alternations would feed each other.
+(define-fun entriesFromNamesS ((ai arch.Info) (names Slice<String>) (sc Slice<seccomp.SyscallWithConditions>) (k Int)) Bool
+  (forall ((e Int)) (! (=> (and (<= 0 e) (< e (Slice<seccomp.SyscallWithConditions>.len sc)))
+      (exists ((i Int)) (and (<= 0 i) (< i k) (knownName ai (select (Slice<String>.arr names) i))
+         (= (seccomp.SyscallWithConditions.Num (select (Slice<seccomp.SyscallWithConditions>.arr sc) e)) (numOf ai (select (Slice<String>.arr names) i))))))
+      :pattern ((select (Slice<seccomp.SyscallWithConditions>.arr sc) e)))))
+(define-fun uncondFromNamesS ((ai arch.Info) (names Slice<String>) (sc Slice<seccomp.SyscallWithConditions>)) Bool
+  (forall ((e Int)) (! (=> (and (<= 0 e) (< e (Slice<seccomp.SyscallWithConditions>.len sc))
+                                (= (Slice<Slice<seccomp.Condition>>.len (seccomp.SyscallWithConditions.Conditions (select (Slice<seccomp.SyscallWithConditions>.arr sc) e))) 0))
+      (exists ((i Int)) (and (<= 0 i) (< i (Slice<String>.len names)) (knownName ai (select (Slice<String>.arr names) i))
+         (= (seccomp.SyscallWithConditions.Num (select (Slice<seccomp.SyscallWithConditions>.arr sc) e)) (numOf ai (select (Slice<String>.arr names) i))))))
+      :pattern ((select (Slice<seccomp.SyscallWithConditions>.arr sc) e)))))
